@@ -41,6 +41,55 @@ Proof.
   - intros Hs u fr rest ph r ok Hp. destruct (Hloc u) as [E1 _]. rewrite E1 in Hp. eapply Ig; eauto.
   - exact Iv.
 Qed.
+(* nor at the constant a pending `MWrite Obj (Const _)` behind a call will write *)
+Lemma Inv_patch_at cf g ls t l fr f sn c c' ph r ok : at_ l = Run fr [MCall f sn; MWrite Obj (Const c)] ph r ok ->
+  Inv cf g ls -> nth_error ls t = Some l ->
+  Inv cf g (upd ls t (Loc (prog l) (Run fr [MCall f sn; MWrite Obj (Const c')] ph r ok) (slots l))).
+Proof.
+  intros Ea [[Hok IX IS IM] [Ir Ic Id If Ig Iv]] Hl.
+  set (l' := Loc (prog l) (Run fr [MCall f sn; MWrite Obj (Const c')] ph r ok) (slots l)).
+  assert (Hlx : lx cf l' = lx cf l /\ lsh cf l' = lsh cf l) by (unfold lx, lsh, l'; cbn [at_ slots]; rewrite Ea; auto).
+  assert (Hloc : forall u, lx cf (locof (upd ls t l') u) = lx cf (locof ls u) /\
+                           lsh cf (locof (upd ls t l') u) = lsh cf (locof ls u) /\
+                           (u <> t -> at_ (locof (upd ls t l') u) = at_ (locof ls u))).
+  { intros u. rewrite (locof_upd _ _ _ _ _ Hl). destruct (Nat.eqb_spec u t) as [Heq|Hne]; [|auto].
+    subst u. rewrite (locof_at _ _ _ Hl). destruct Hlx. repeat split; auto. intros; congruence. }
+  assert (Hlt : locof (upd ls t l') t = l').
+  { rewrite (locof_upd _ _ _ _ _ Hl), Nat.eqb_refl. reflexivity. }
+  split; constructor.
+  - intros u l0 Hu. destruct (nth_upd _ _ _ _ _ Hu) as [[Hut [Hl0 _]]|[_ Hu']]; [|eauto]. subst u l0.
+    pose proof (Hok _ _ Hl) as [H1 H2]. unfold locok in *. rewrite Ea in H2. unfold l'; cbn [at_ slots].
+    split; [exact H1|]. destruct H2 as [_ H2]. split; [discriminate|exact H2].
+  - intros u. destruct (Hloc u) as [E _]. rewrite E. apply IX.
+  - intros u. destruct (Hloc u) as [_ [E _]]. rewrite E. apply IS.
+  - exact IM.
+  - rewrite Ir. pose proof (sum_upd (fun l => rdopen (at_ l)) ls t l l' Hl) as E0. cbv beta in E0.
+    unfold l' in E0 at 2; cbn [at_] in E0. rewrite Ea in E0. cbn [rdopen] in E0. fold l' in E0. lia.
+  - intros Hs u fr0 code ph0 r0 ok0 Hp. destruct (Hloc u) as [E1 [E2 E3]]. rewrite E1, E2.
+    destruct (Nat.eq_dec u t) as [Heq|Hne].
+    + subst u. rewrite Hlt in Hp. unfold l' in Hp; cbn [at_] in Hp. inversion Hp; subst.
+      rewrite (locof_at _ _ _ Hl) in *.
+      destruct (Ic Hs t _ _ _ _ _ (eq_trans (f_equal at_ (locof_at _ _ _ Hl)) Ea)) as [?|[_ Hn]];
+        [rewrite (locof_at _ _ _ Hl) in *; auto|cbn in Hn; discriminate].
+    + rewrite (E3 Hne) in Hp. apply (Ic Hs u _ _ _ _ _ Hp).
+  - intros Hs Hd. destruct (Id Hs Hd) as [u Hu]. exists u. destruct (Nat.eq_dec u t) as [Heq|Hne].
+    + subst u. rewrite Hlt. rewrite (locof_at _ _ _ Hl), Ea in Hu. exact Hu.
+    + destruct (Hloc u) as [_ [_ E3]]. rewrite (E3 Hne). exact Hu.
+  - exact If.
+  - intros Hs u fr0 rest ph0 r0 ok0 Hp. destruct (Nat.eq_dec u t) as [Heq|Hne].
+    + subst u. rewrite Hlt in Hp. discriminate.
+    + destruct (Hloc u) as [_ [_ E3]]. rewrite (E3 Hne) in Hp. eapply Ig; eauto.
+  - exact Iv.
+Qed.
+Lemma Inv_patch cf g ls t l v : Inv cf g ls -> nth_error ls t = Some l -> Inv cf g (upd ls t (patch l v)).
+Proof.
+  intros HI Hl. unfold patch.
+  destruct (at_ l) eqn:Ea; try (rewrite (upd_same _ _ _ Hl); exact HI).
+  repeat match goal with
+         | |- Inv _ _ (upd _ _ (match ?x with _ => _ end)) => destruct x; try (rewrite (upd_same _ _ _ Hl); exact HI)
+         end.
+  eapply Inv_patch_at; eauto.
+Qed.
 Lemma Inv_tstep cf : forall g ls t c l g' l' es,
   Inv cf g ls -> nth_error ls t = Some l -> tstep cf t c g l = Some (g', l', es) -> Inv cf g' (upd ls t l').
 Proof. apply (lift_step cf (Inv cf) (Inv_step cf)). Qed.
@@ -66,31 +115,35 @@ Proof.
   unfold tstep2 in Hs.
   destruct (negb (idle (lY l))) eqn:EY.
   - destruct (tstep cy t c (gY g) (lY l)) as [[[gY' lY'] es1]|] eqn:E1; [|discriminate]. inversion Hs; subst; cbn [gX gY lX lY].
-    split; [rewrite (upd_same _ _ _ HlX); exact HX|eapply Inv_tstep; eauto].
+    split; [|eapply Inv_tstep; eauto].
+    destruct (xf l && idle lY'); [|rewrite (upd_same _ _ _ HlX); exact HX].
+    destruct (ret_of (lY l)); [apply Inv_patch; assumption|rewrite (upd_same _ _ _ HlX); exact HX].
   - apply negb_false_iff in EY. destruct (negb (idle (lX l))) eqn:EX.
     + destruct (tstep cx t c (gX g) (lX l)) as [[[gX' lX'] es1]|] eqn:E1; [|discriminate].
       assert (HX' : Inv cx gX' (upd (map lX ls) t lX')) by (eapply Inv_tstep; eauto).
       destruct (nest l) as [inner|].
-      * destruct (at_functor_call (lX l)).
+      * destruct (if xf l then at_gacq (lX l) else at_functor_call (lX l)).
         -- destruct (tstep cy t c (gY g) (with_op (lY l) inner)) as [[[gY' lY'] esY]|] eqn:E2; [|discriminate].
            inversion Hs; subst; cbn [gX gY lX lY]. split; [exact HX'|eapply Inv_handed; eauto].
         -- inversion Hs; subst; cbn [gX gY lX lY]. split; [exact HX'|rewrite (upd_same _ _ _ HlY); exact HY].
       * inversion Hs; subst; cbn [gX gY lX lY]. split; [exact HX'|rewrite (upd_same _ _ _ HlY); exact HY].
-    + apply negb_false_iff in EX. destruct (prog2 l) as [|[o|o|fid inner] r]; [discriminate| | |].
+    + apply negb_false_iff in EX. destruct (prog2 l) as [|[o|o|fid inner|] r]; [discriminate| | | |].
       * destruct (tstep cx t c (gX g) (with_op (lX l) o)) as [[[gX' lX'] es1]|] eqn:E1; [|discriminate].
         inversion Hs; subst; cbn [gX gY lX lY]. split; [eapply Inv_handed; eauto|rewrite (upd_same _ _ _ HlY); exact HY].
       * destruct (tstep cy t c (gY g) (with_op (lY l) o)) as [[[gY' lY'] es1]|] eqn:E1; [|discriminate].
         inversion Hs; subst; cbn [gX gY lX lY]. split; [rewrite (upd_same _ _ _ HlX); exact HX|eapply Inv_handed; eauto].
       * destruct (tstep cx t c (gX g) (with_op (lX l) (Modify fid))) as [[[gX' lX'] es1]|] eqn:E1; [|discriminate].
         inversion Hs; subst; cbn [gX gY lX lY]. split; [eapply Inv_handed; eauto|rewrite (upd_same _ _ _ HlY); exact HY].
+      * destruct (tstep cx t c (gX g) (with_op (lX l) (Assign 0))) as [[[gX' lX'] es1]|] eqn:E1; [|discriminate].
+        inversion Hs; subst; cbn [gX gY lX lY]. split; [eapply Inv_handed; eauto|rewrite (upd_same _ _ _ HlY); exact HY].
 Qed.
 
 Lemma Inv_init_threads cf (progs : list (list op2)) (f : loc2 -> loc) :
-  (forall p, f (Loc2 p init_loc init_loc None) = init_loc) ->
-  Inv cf (gl (init cf [])) (map f (map (fun p => Loc2 p init_loc init_loc None) progs)).
+  (forall p, f (Loc2 p init_loc init_loc None false) = init_loc) ->
+  Inv cf (gl (init cf [])) (map f (map (fun p => Loc2 p init_loc init_loc None false) progs)).
 Proof.
   intros Hf. rewrite map_map.
-  replace (map (fun x => f (Loc2 x init_loc init_loc None)) progs) with (thr (init cf (map (fun _ => []) progs))).
+  replace (map (fun x => f (Loc2 x init_loc init_loc None false)) progs) with (thr (init cf (map (fun _ => []) progs))).
   - split; [apply (Inv1_init cf (map (fun _ => []) progs))|apply (Inv2_init cf (map (fun _ => []) progs))].
   - unfold init. cbn [thr]. rewrite map_map. apply map_ext. intros p. rewrite Hf. reflexivity.
 Qed.
